@@ -834,7 +834,11 @@ func (s *IndexedState) FindCachedRules(ctx *Context, event Map) (map[string]*Rul
 		} else {
 			rule, err := RuleFromMap(ctx, r)
 			if err != nil {
-				return nil, err
+				// Not a usable rule (it got here as a fact): it
+				// can't run, and it must not keep the others from
+				// running.
+				Log(ERROR, ctx, "IndexedState.FindCachedRules", "name", s.Name, "id", id, "error", err)
+				continue
 			}
 			acc[id] = rule
 			s.cachedRules[id] = rule
